@@ -1,15 +1,20 @@
-(* NEEDS: SelfCal/AutoKernelModel.vo *)
+(* NEEDS: SelfCal/AutoKernelModel.vo SelfCal/AutoKernelQrQ.vo *)
 (* Extraction of the Levenberg-Marquardt kernel model (one pass of _vnacal_new_solve_auto,
    coq/SelfCal/AutoKernelModel.v).  Only ExtrOcamlBasic's directives are in effect. *)
 Require Extraction.
 Require Import ExtrOcamlBasic.
 Require Import List ZArith QArith Qcanon.
-Require Import LV.Base.CField LV.Base.QcI LV.Lin.MatL LV.SelfCal.AutoLoop LV.SelfCal.AutoKernelModel.
+Require Import LV.Base.CField LV.Base.QcI LV.Lin.MatL LV.SelfCal.AutoLoop LV.SelfCal.AutoKernelModel LV.SelfCal.AutoKernelQrQ.
+
+(* the Q-forming loop of _vnacommon_qr and the Q2^H accumulation of solve_auto at Q[i] *)
+Definition q_formq (m n : nat) (a : mat QIF) : mat QIF := qr_formq QIF m n a.
+Definition q_q2h (m n : nat) (q : mat QIF) (y : list qi) : list qi :=
+  map (q2h QIF m n q (fun e => nth e y qi0)) (seq 0 (m - n)).
 
 Extraction Language OCaml.
 Set Extraction KeepSingleton.
 Extraction "models_autokernel.ml"
   QI qre qim qq Qnum Qden this
   Term Eqn Corr Problem SKnown SUnk
-  a_matrix b_vector kernel_pass kernel_step apply_d norm2 kernel_run
-  pd_x pd_jtj pd_jtk pd_sumk e_best e_mult e_lambda e_converged.
+  q_formq q_q2h a_matrix b_vector kernel_pass kernel_step apply_d norm2 kernel_run
+  Converged pd_x pd_jtj pd_jtk pd_sumk e_best e_mult e_lambda e_converged.
